@@ -269,15 +269,15 @@ pub fn tiny_low(fat: FatType, nfree: usize, root_entries: u16) -> Cfg {
     cfg_from(&spec.name, img, cands)
 }
 
-/// FAT32 volume with 66 000 clusters whose free clusters straddle 0x10000 (0xFFFE..=0x10003) plus the last two:
-/// every cluster number handed out needs the high word of the directory entry's first-cluster field, one of them
-/// (0x10000) has a zero low word
+/// FAT32 volume with 66 000 clusters whose free clusters all lie above 0xFFFF (0x10000..=0x10005 and the last two):
+/// every cluster number handed out needs the high word of the directory entry's first-cluster field, the first of
+/// them (0x10000) has a zero low word
 pub fn t32_high() -> Cfg {
     let spec = VolSpec { name: "t32-high".into(), fat: FatType::Fat32, bps: 512, spc: 1, fats: 2, root_entries: 0, clusters: Some(66_000), free: None, tail: 0 };
     let (mut img, _) = build(&spec).expect("t32-high");
     let g = geo_of(&img);
     let last = g.max_cluster();
-    let keep: Vec<u32> = vec![0xFFFE, 0xFFFF, 0x1_0000, 0x1_0001, 0x1_0002, 0x1_0003, last - 1, last];
+    let keep: Vec<u32> = vec![0x1_0000, 0x1_0001, 0x1_0002, 0x1_0003, 0x1_0004, 0x1_0005, last - 1, last];
     ballast(&mut img, &keep);
     set_fsinfo(&mut img, None, Some(0xFFF0));
     let mut c = keep.clone();
